@@ -12,6 +12,9 @@
     M <pcs>=<kind>[=<n.n.…>],…   per component pattern (`n<cp>`/`l<cp>` joined by `.`): what yash_fnmatch
                          says: `N` unparsable, `L<hex>` literal, `P` pattern + the candidate names it matches
     X <tree>             what the root directory holds besides `t` (same entry syntax, paths from `/`)
+  The matcher is the C04 model of yash-fnmatch under glob's `Config` (`fnMatcher`, memoised per case);
+  `M` is only compared with it (`FNMATCH-MODEL-DIFFERS:<patterns>` when they disagree about a candidate name
+  without the expansion being affected; otherwise the columns simply differ from the shell's fields).
   From `T`, `X` and `R` the driver also builds the world model (`World.lean`: inode table with mode
   bits), derives the two oracles from it and demands that they answer like the dump (`E`, `L`) and give
   the same expansion; otherwise the observation is `WORLD-MODEL-DIFFERS`.
@@ -24,6 +27,7 @@ import YashModel.Glob.Model
 import YashModel.Glob.Spec
 import YashModel.Glob.Dump
 import YashModel.Glob.World
+import YashModel.Glob.FnMatcher
 open YashModel YashModel.Glob YashModel.Proto
 
 def hexNat (s : String) : Option Nat :=
@@ -116,6 +120,11 @@ def sameNames (a b : List Name) : Bool := a.all b.contains && b.all a.contains
 def showFields (l : List Path) : String :=
   if l.isEmpty then "none" else ",".intercalate (l.map encChars)
 
+def showPcs (p : List PatternChar) : String :=
+  if p.isEmpty then "-" else ".".intercalate (p.map fun c => match c with
+    | .normal c => "n" ++ String.ofList (Nat.toDigits 16 c.toNat)
+    | .literal c => "l" ++ String.ofList (Nat.toDigits 16 c.toNat))
+
 def runLine (line : String) : String :=
   match splitTrim line "|" with
   | [prim, f, e, l, mm, xx] =>
@@ -141,8 +150,16 @@ def runLine (line : String) : String :=
       let xEntries ← match words xx with
         | ["X", t] => (listOf t ",").mapM (parseEntry [])
         | _ => none
-      let wfs := fsOfWorld (mkWorld tEntries xEntries ((keyed "R" pw) != some "1"))
-      let m := mkMatcher tab
+      let world := mkWorld tEntries xEntries ((keyed "R" pw) != some "1")
+      let wfs := fsOfWorld world
+      -- the matcher is the C04 model of yash-fnmatch under glob's Config, memoised on the component
+      -- patterns of this case and the candidate names (FnLemmas.lean: `mkMatcher (fnTab ..)` answers like
+      -- `fnMatcher` there, and `glob` asks nothing else); the table `M` of real answers is only compared
+      let univ := univOf ls
+      let treeNames := tEntries.filterMap (fun x => x.1.getLast?)
+      let cands := dedupNames (univ ++ treeNames ++ [dot, dotdot])
+      let m := mkMatcher (fnTab cands (componentKeys fields))
+      let mReal := mkMatcher tab
       let fs := mkFs es ls
       let missing := fields.any fun field =>
         let comps := splitComponents field
@@ -152,8 +169,7 @@ def runLine (line : String) : String :=
       else
         let out := expandFields m fs noglob mode fields
         -- `wfDump` implies `WF fs`, `univOf` covers every listing (DumpLemmas.lean): by
-        -- `driver_spec_column` the Spec column, when printed, is the declarative Spec of the dump
-        let univ := univOf ls
+        -- `driver_fn_column` the Spec column, when printed, is the declarative Spec of the dump
         let spec :=
           if wfDump es ls then "=" ++ showFields (specFieldsU m fs univ noglob mode fields) else "-"
         let worldOK :=
@@ -164,8 +180,18 @@ def runLine (line : String) : String :=
           && expandFields m wfs noglob mode fields == out
         if !worldOK then
           pure "WORLD-MODEL-DIFFERS\t-"
+        else if goodWorld world && !wfDump es ls then
+          -- `wf_fsOfWorld`: the oracles of a good world are consistent, so a dump of them that is not
+          -- would mean that the dump is not what the world model says (or that the harness asked
+          -- about too little)
+          pure "GOOD-WORLD-BUT-DUMP-NOT-WF\t-"
         else if !periodDump tab then
           pure "PERIOD-RULE-VIOLATED-BY-MATCH-TABLE\t-"
+        else if !tabAgrees cands tab && expandFields mReal fs noglob mode fields == out then
+          -- the real crate and the C04 model disagree about some candidate name, although not about one
+          -- that decides this expansion (if they did, `out` below already differs from the shell's fields)
+          let bad := (tab.filter (fun e => !entryAgrees cands e)).map (fun e => showPcs e.pcs)
+          pure ("FNMATCH-MODEL-DIFFERS:" ++ ",".intercalate bad ++ "\t-")
         else
         pure (showFields out ++ "\t" ++ spec)
     r.getD "bad-case\t-"
